@@ -497,10 +497,39 @@ fn invalid_op(rng: &mut Rng, codec: VCodec, acodec: Option<ACodec>, now: f64, fi
     };
     let good_v = |rng: &mut Rng, shape: FrameShape, st: u64| frames::build_video(rng, codec, shape, st, 24, k.decorate);
     let ac = acodec.unwrap_or(ACodec::AacLc);
-    match rng.below(14) {
-        0 => {
+    match rng.below(15) {
+        14 if matches!(codec, VCodec::H264 | VCodec::H265) && rng.chance(1, 3) => {
+            // a keyframe whose parameter set does not fit the 16-bit length of avcC/hvcC (refused by the writer)
+            let hevc = codec == VCodec::H265;
+            let big: Vec<u8> = (0..65_600usize).map(|i| 1 + (i % 250) as u8).collect();
+            let mk = |t: u8, body: &[u8]| -> Vec<u8> {
+                let mut v = vec![0, 0, 0, 1];
+                if hevc {
+                    v.push(t << 1);
+                    v.push(1);
+                } else {
+                    v.push(0x60 | t);
+                }
+                v.extend_from_slice(body);
+                v
+            };
+            let which = rng.below(3);
+            let mut d = Vec::new();
+            if hevc {
+                d.extend(mk(32, if which == 0 { &big } else { &big[..8] }));
+                d.extend(mk(33, if which == 1 { &big } else { &big[..20] }));
+                d.extend(mk(34, if which == 2 { &big } else { &big[..6] }));
+                d.extend(mk(19, &big[..10]));
+            } else {
+                d.extend(mk(7, if which != 2 { &big } else { &big[..8] }));
+                d.extend(mk(8, if which == 2 { &big } else { &big[..6] }));
+                d.extend(mk(5, &big[..10]));
+            }
+            Op::Video { pts: F(near(rng)), data: Hex(d), key: true, cc: false }
+        }
+        0 | 14 => {
             let f = good_v(rng, FrameShape::KeyWithConfig, next_stamp());
-            Op::Video { pts: F(bad_ts(rng)), data: Hex(f.data), key: true, cc: true }
+            Op::Video { pts: F(bad_ts(rng)), key: true, cc: f.has_config, data: Hex(f.data) }
         }
         1 => Op::Video { pts: F(near(rng)), data: Hex(vec![]), key: rng.bool(), cc: false },
         2 => {
@@ -527,7 +556,7 @@ fn invalid_op(rng: &mut Rng, codec: VCodec, acodec: Option<ACodec>, now: f64, fi
                 4 => (now + 30000.0, now + 0.05),
                 _ => ((now - 25000.0).max(0.0), now + 25000.0 + 0.05),
             };
-            Op::VideoDts { pts: F(p), dts: F(d), data: Hex(f.data), key: true, cc: true }
+            Op::VideoDts { pts: F(p), dts: F(d), key: true, cc: f.has_config, data: Hex(f.data) }
         }
         5 => {
             let f = frames::build_audio(rng, ac, next_stamp(), 16, k.decorate);
@@ -554,7 +583,7 @@ fn invalid_op(rng: &mut Rng, codec: VCodec, acodec: Option<ACodec>, now: f64, fi
         11 => {
             // a perfectly valid video frame at a time that is already taken
             let f = good_v(rng, FrameShape::KeyWithConfig, next_stamp());
-            Op::Video { pts: F(near(rng)), data: Hex(f.data), key: true, cc: true }
+            Op::Video { pts: F(near(rng)), key: true, cc: f.has_config, data: Hex(f.data) }
         }
         12 => {
             // garbage that contains start codes / empty units
